@@ -7,7 +7,7 @@
 From Coq Require Import List NArith Bool.
 From NV Require Import Syntax.Token Syntax.Ast Syntax.StmtAst Syntax.StrEsc Syntax.Parser Syntax.Grammar
      Syntax.StrEscProofs Syntax.TypedPrinter Syntax.TypedPrinterProofs Syntax.FixedPoint
-     Syntax.TypeGrammar Syntax.StmtGrammar Syntax.DefEcho.
+     Syntax.TypeGrammar Syntax.StmtGrammar Syntax.DefEcho Syntax.Lexer Syntax.LexString.
 Import ListNotations.
 Local Open Scope N_scope.
 
@@ -42,6 +42,30 @@ Theorem C15_fixed_point_partial : forall (is_unit is_fn : str -> bool) (e : texp
   exists u, parse (pp e) = Ok [StExpr u] [] /\ pp (lift is_unit is_fn u) = pp e.
 Proof. exact echo_fixed_point. Qed.
 Print Assumptions C15_fixed_point_partial.
+
+(* From text to token: the text the printer writes for ANY string s, quote + escape_numbat_string s +
+   quote, is lexed by the tokenizer model (any Unicode classes, any scope stack; not directly after a
+   string / identifier inside an interpolation) as exactly one StringFixed token with that lexeme; the
+   parts of an echoed interpolated string are exactly one StringInterpolationStart / End token
+   (Middle: Syntax/LexString.v).  With C15_string_escape: text -> token -> the original string. *)
+Theorem C15_lex_string_echo : forall (xid_start xid_continue : N -> bool) (d : list bool) (la : option token) (s rest : str),
+  inside_interpolation d && last_ends_string la = false ->
+  scan_single_token xid_start xid_continue d la (34 :: escape_numbat_string s ++ 34 :: rest)
+  = LOk (Some (TString (34 :: escape_numbat_string s ++ [34])), rest, d).
+Proof. exact lex_string_echo. Qed.
+Print Assumptions C15_lex_string_echo.
+
+Theorem C15_lex_interp_echo : forall (xid_start xid_continue : N -> bool) (d : list bool) (la : option token) (s rest : str),
+  (inside_interpolation d && last_ends_string la = false -> peek_is (fun x => x =? 123) rest = false ->
+   scan_single_token xid_start xid_continue d la (34 :: escape_numbat_string s ++ 123 :: rest)
+   = LOk (Some (TInterpStart (34 :: escape_numbat_string s ++ [123])), rest, true :: d))
+  /\ (inside_interpolation d = true ->
+      scan_single_token xid_start xid_continue d la (125 :: escape_numbat_string s ++ 34 :: rest)
+      = LOk (Some (TInterpEnd (125 :: escape_numbat_string s ++ [34])), rest, tl d)).
+Proof.
+  intros. split; [apply lex_interp_start_echo|apply lex_interp_end_echo].
+Qed.
+Print Assumptions C15_lex_interp_echo.
 
 (* Decorators: the echo of every decorator (decorator_markup: name / url / description / example with their strings quoted by
    escape_numbat_string, aliases with their accepts annotations, the prefix decorators), whatever strings and alias lists it carries, is
